@@ -424,6 +424,146 @@ def C07.Frustum.ZToDepthExc_3_7_7_persp {α : Type} (n : α) (f : α) (l : α) (
   .error Exc.domainError
 
 /-- extracted from the C++ template at T = Sym; 1 path(s) -/
+def C07.Frustum.ZToDepth_11_0_10_persp {α : Type} [Sub α] [Mul α] [Div α] [OfNat α 0] [OfNat α 1] [OfNat α 2] [OfNat α 10] [OfNat α 11] (n : α) (f : α) (l : α) (r : α) (t : α) (b : α) : α :=
+  ((((2 : α) * f) * n) / ((((((((11 : α) - (0 : α)) / (10 : α)) * (2 : α)) - (1 : α)) * (f - n)) - f) - n))
+
+/-- extracted from the C++ template at T = Sym; 3 path(s) -/
+def C07.Frustum.ZToDepthExc_11_0_10_persp {α : Type} [Sub α] [Mul α] [Div α] [Neg α] [LT α] [DecidableLT α] [OfNat α 0] [OfNat α 1] [OfNat α 2] [OfNat α 10] [OfNat α 11] (tmax : α) (n : α) (f : α) (l : α) (r : α) (t : α) (b : α) : Except Exc α :=
+  let t741 := (((2 : α) * f) * n)
+  let t748 := (sabs t741)
+  let t801 := ((((((((11 : α) - (0 : α)) / (10 : α)) * (2 : α)) - (1 : α)) * (f - n)) - f) - n)
+  let t802 := (t741 / t801)
+  let t803 := (sabs t801)
+  let t804 := (tmax * t803)
+  if t803 < (1 : α) then
+    if t804 < t748 then
+      .error Exc.domainError
+    else
+      .ok (t802)
+  else
+    .ok (t802)
+
+/-- extracted from the C++ template at T = Sym; 1 path(s) -/
+def C07.Frustum.ZToDepth_11_0_10_ortho {α : Type} [Add α] [Sub α] [Mul α] [Div α] [Neg α] [OfNat α 0] [OfNat α 1] [OfNat α 2] [OfNat α 10] [OfNat α 11] (n : α) (f : α) (l : α) (r : α) (t : α) (b : α) : α :=
+  ((-(((((((11 : α) - (0 : α)) / (10 : α)) * (2 : α)) - (1 : α)) * (f - n)) + (f + n))) / (2 : α))
+
+/-- extracted from the C++ template at T = Sym; 1 path(s) -/
+def C07.Frustum.ZToDepthExc_11_0_10_ortho {α : Type} [Add α] [Sub α] [Mul α] [Div α] [Neg α] [OfNat α 0] [OfNat α 1] [OfNat α 2] [OfNat α 10] [OfNat α 11] (n : α) (f : α) (l : α) (r : α) (t : α) (b : α) : α :=
+  ((-(((((((11 : α) - (0 : α)) / (10 : α)) * (2 : α)) - (1 : α)) * (f - n)) + (f + n))) / (2 : α))
+
+/-- extracted from the C++ template at T = Sym; 1 path(s) -/
+def C07.Frustum.ZToDepth_m3_m10_10_persp {α : Type} [Sub α] [Mul α] [Div α] [Neg α] [OfNat α 1] [OfNat α 2] [OfNat α 3] [OfNat α 10] [OfNat α 20] (n : α) (f : α) (l : α) (r : α) (t : α) (b : α) : α :=
+  ((((2 : α) * f) * n) / ((((((((-(3 : α)) - (-(10 : α))) / (20 : α)) * (2 : α)) - (1 : α)) * (f - n)) - f) - n))
+
+/-- extracted from the C++ template at T = Sym; 3 path(s) -/
+def C07.Frustum.ZToDepthExc_m3_m10_10_persp {α : Type} [Sub α] [Mul α] [Div α] [Neg α] [LT α] [DecidableLT α] [OfNat α 0] [OfNat α 1] [OfNat α 2] [OfNat α 3] [OfNat α 10] [OfNat α 20] (tmax : α) (n : α) (f : α) (l : α) (r : α) (t : α) (b : α) : Except Exc α :=
+  let t741 := (((2 : α) * f) * n)
+  let t748 := (sabs t741)
+  let t817 := ((((((((-(3 : α)) - (-(10 : α))) / (20 : α)) * (2 : α)) - (1 : α)) * (f - n)) - f) - n)
+  let t818 := (t741 / t817)
+  let t819 := (sabs t817)
+  let t820 := (tmax * t819)
+  if t819 < (1 : α) then
+    if t820 < t748 then
+      .error Exc.domainError
+    else
+      .ok (t818)
+  else
+    .ok (t818)
+
+/-- extracted from the C++ template at T = Sym; 1 path(s) -/
+def C07.Frustum.ZToDepth_m3_m10_10_ortho {α : Type} [Add α] [Sub α] [Mul α] [Div α] [Neg α] [OfNat α 1] [OfNat α 2] [OfNat α 3] [OfNat α 10] [OfNat α 20] (n : α) (f : α) (l : α) (r : α) (t : α) (b : α) : α :=
+  ((-(((((((-(3 : α)) - (-(10 : α))) / (20 : α)) * (2 : α)) - (1 : α)) * (f - n)) + (f + n))) / (2 : α))
+
+/-- extracted from the C++ template at T = Sym; 1 path(s) -/
+def C07.Frustum.ZToDepthExc_m3_m10_10_ortho {α : Type} [Add α] [Sub α] [Mul α] [Div α] [Neg α] [OfNat α 1] [OfNat α 2] [OfNat α 3] [OfNat α 10] [OfNat α 20] (n : α) (f : α) (l : α) (r : α) (t : α) (b : α) : α :=
+  ((-(((((((-(3 : α)) - (-(10 : α))) / (20 : α)) * (2 : α)) - (1 : α)) * (f - n)) + (f + n))) / (2 : α))
+
+/-- extracted from the C++ template at T = Sym; 1 path(s) -/
+def C07.Frustum.ZToDepth_25_m5_15_persp {α : Type} [Sub α] [Mul α] [Div α] [Neg α] [OfNat α 1] [OfNat α 2] [OfNat α 5] [OfNat α 20] (n : α) (f : α) (l : α) (r : α) (t : α) (b : α) : α :=
+  ((((2 : α) * f) * n) / ((((((((5 : α) - (-(5 : α))) / (20 : α)) * (2 : α)) - (1 : α)) * (f - n)) - f) - n))
+
+/-- extracted from the C++ template at T = Sym; 3 path(s) -/
+def C07.Frustum.ZToDepthExc_25_m5_15_persp {α : Type} [Sub α] [Mul α] [Div α] [Neg α] [LT α] [DecidableLT α] [OfNat α 0] [OfNat α 1] [OfNat α 2] [OfNat α 5] [OfNat α 20] (tmax : α) (n : α) (f : α) (l : α) (r : α) (t : α) (b : α) : Except Exc α :=
+  let t741 := (((2 : α) * f) * n)
+  let t748 := (sabs t741)
+  let t831 := ((((((((5 : α) - (-(5 : α))) / (20 : α)) * (2 : α)) - (1 : α)) * (f - n)) - f) - n)
+  let t832 := (t741 / t831)
+  let t833 := (sabs t831)
+  let t834 := (tmax * t833)
+  if t833 < (1 : α) then
+    if t834 < t748 then
+      .error Exc.domainError
+    else
+      .ok (t832)
+  else
+    .ok (t832)
+
+/-- extracted from the C++ template at T = Sym; 1 path(s) -/
+def C07.Frustum.ZToDepth_25_m5_15_ortho {α : Type} [Add α] [Sub α] [Mul α] [Div α] [Neg α] [OfNat α 1] [OfNat α 2] [OfNat α 5] [OfNat α 20] (n : α) (f : α) (l : α) (r : α) (t : α) (b : α) : α :=
+  ((-(((((((5 : α) - (-(5 : α))) / (20 : α)) * (2 : α)) - (1 : α)) * (f - n)) + (f + n))) / (2 : α))
+
+/-- extracted from the C++ template at T = Sym; 1 path(s) -/
+def C07.Frustum.ZToDepthExc_25_m5_15_ortho {α : Type} [Add α] [Sub α] [Mul α] [Div α] [Neg α] [OfNat α 1] [OfNat α 2] [OfNat α 5] [OfNat α 20] (n : α) (f : α) (l : α) (r : α) (t : α) (b : α) : α :=
+  ((-(((((((5 : α) - (-(5 : α))) / (20 : α)) * (2 : α)) - (1 : α)) * (f - n)) + (f + n))) / (2 : α))
+
+/-- extracted from the C++ template at T = Sym; 1 path(s) -/
+def C07.Frustum.ZToDepth_0_0_1_persp {α : Type} [Sub α] [Mul α] [Div α] [OfNat α 0] [OfNat α 1] [OfNat α 2] (n : α) (f : α) (l : α) (r : α) (t : α) (b : α) : α :=
+  ((((2 : α) * f) * n) / ((((((((0 : α) - (0 : α)) / (1 : α)) * (2 : α)) - (1 : α)) * (f - n)) - f) - n))
+
+/-- extracted from the C++ template at T = Sym; 3 path(s) -/
+def C07.Frustum.ZToDepthExc_0_0_1_persp {α : Type} [Sub α] [Mul α] [Div α] [Neg α] [LT α] [DecidableLT α] [OfNat α 0] [OfNat α 1] [OfNat α 2] (tmax : α) (n : α) (f : α) (l : α) (r : α) (t : α) (b : α) : Except Exc α :=
+  let t741 := (((2 : α) * f) * n)
+  let t748 := (sabs t741)
+  let t844 := ((((((((0 : α) - (0 : α)) / (1 : α)) * (2 : α)) - (1 : α)) * (f - n)) - f) - n)
+  let t845 := (t741 / t844)
+  let t846 := (sabs t844)
+  let t847 := (tmax * t846)
+  if t846 < (1 : α) then
+    if t847 < t748 then
+      .error Exc.domainError
+    else
+      .ok (t845)
+  else
+    .ok (t845)
+
+/-- extracted from the C++ template at T = Sym; 1 path(s) -/
+def C07.Frustum.ZToDepth_0_0_1_ortho {α : Type} [Add α] [Sub α] [Mul α] [Div α] [Neg α] [OfNat α 0] [OfNat α 1] [OfNat α 2] (n : α) (f : α) (l : α) (r : α) (t : α) (b : α) : α :=
+  ((-(((((((0 : α) - (0 : α)) / (1 : α)) * (2 : α)) - (1 : α)) * (f - n)) + (f + n))) / (2 : α))
+
+/-- extracted from the C++ template at T = Sym; 1 path(s) -/
+def C07.Frustum.ZToDepthExc_0_0_1_ortho {α : Type} [Add α] [Sub α] [Mul α] [Div α] [Neg α] [OfNat α 0] [OfNat α 1] [OfNat α 2] (n : α) (f : α) (l : α) (r : α) (t : α) (b : α) : α :=
+  ((-(((((((0 : α) - (0 : α)) / (1 : α)) * (2 : α)) - (1 : α)) * (f - n)) + (f + n))) / (2 : α))
+
+/-- extracted from the C++ template at T = Sym; 1 path(s) -/
+def C07.Frustum.ZToDepth_w33_persp {α : Type} [Sub α] [Mul α] [Div α] [OfNat α 1] [OfNat α 2] [OfNat α 8589934590] [OfNat α 8589934591] (n : α) (f : α) (l : α) (r : α) (t : α) (b : α) : α :=
+  ((((2 : α) * f) * n) / ((((((((8589934591 : α) - (1 : α)) / (8589934590 : α)) * (2 : α)) - (1 : α)) * (f - n)) - f) - n))
+
+/-- extracted from the C++ template at T = Sym; 3 path(s) -/
+def C07.Frustum.ZToDepthExc_w33_persp {α : Type} [Sub α] [Mul α] [Div α] [Neg α] [LT α] [DecidableLT α] [OfNat α 0] [OfNat α 1] [OfNat α 2] [OfNat α 8589934590] [OfNat α 8589934591] (tmax : α) (n : α) (f : α) (l : α) (r : α) (t : α) (b : α) : Except Exc α :=
+  let t741 := (((2 : α) * f) * n)
+  let t748 := (sabs t741)
+  let t859 := ((((((((8589934591 : α) - (1 : α)) / (8589934590 : α)) * (2 : α)) - (1 : α)) * (f - n)) - f) - n)
+  let t860 := (t741 / t859)
+  let t861 := (sabs t859)
+  let t862 := (tmax * t861)
+  if t861 < (1 : α) then
+    if t862 < t748 then
+      .error Exc.domainError
+    else
+      .ok (t860)
+  else
+    .ok (t860)
+
+/-- extracted from the C++ template at T = Sym; 1 path(s) -/
+def C07.Frustum.ZToDepth_w33_ortho {α : Type} [Add α] [Sub α] [Mul α] [Div α] [Neg α] [OfNat α 1] [OfNat α 2] [OfNat α 8589934590] [OfNat α 8589934591] (n : α) (f : α) (l : α) (r : α) (t : α) (b : α) : α :=
+  ((-(((((((8589934591 : α) - (1 : α)) / (8589934590 : α)) * (2 : α)) - (1 : α)) * (f - n)) + (f + n))) / (2 : α))
+
+/-- extracted from the C++ template at T = Sym; 1 path(s) -/
+def C07.Frustum.ZToDepthExc_w33_ortho {α : Type} [Add α] [Sub α] [Mul α] [Div α] [Neg α] [OfNat α 1] [OfNat α 2] [OfNat α 8589934590] [OfNat α 8589934591] (n : α) (f : α) (l : α) (r : α) (t : α) (b : α) : α :=
+  ((-(((((((8589934591 : α) - (1 : α)) / (8589934590 : α)) * (2 : α)) - (1 : α)) * (f - n)) + (f + n))) / (2 : α))
+
+/-- extracted from the C++ template at T = Sym; 1 path(s) -/
 def C07.Frustum.localToScreen {α : Type} [Add α] [Sub α] [Mul α] [Div α] [OfNat α 2] (n : α) (f : α) (l : α) (r : α) (t : α) (b : α) (p : V2 α) : (V2 α) :=
   ⟨(((l - ((2 : α) * p.x)) + r) / (l - r)), (((b - ((2 : α) * p.y)) + t) / (b - t))⟩
 
@@ -467,16 +607,16 @@ def C07.Frustum.screenRadius {α : Type} [Mul α] [Div α] [Neg α] (n : α) (f 
 
 /-- extracted from the C++ template at T = Sym; 3 path(s) -/
 def C07.Frustum.screenRadiusExc {α : Type} [Mul α] [Div α] [Neg α] [LT α] [DecidableLT α] [OfNat α 0] [OfNat α 1] (tmax : α) (n : α) (f : α) (l : α) (r : α) (t : α) (b : α) (p : V3 α) (radius : α) : Except Exc α :=
-  let t795 := (-n)
-  let t797 := (radius * (t795 / p.z))
-  let t798 := (sabs p.z)
-  let t799 := (tmax * t798)
-  let t800 := (sabs t795)
-  if (1 : α) < t798 then
-    .ok (t797)
+  let t867 := (-n)
+  let t869 := (radius * (t867 / p.z))
+  let t870 := (sabs p.z)
+  let t871 := (tmax * t870)
+  let t872 := (sabs t867)
+  if (1 : α) < t870 then
+    .ok (t869)
   else
-    if t800 < t799 then
-      .ok (t797)
+    if t872 < t871 then
+      .ok (t869)
     else
       .error Exc.domainError
 
@@ -486,16 +626,16 @@ def C07.Frustum.worldRadius {α : Type} [Mul α] [Div α] [Neg α] (n : α) (f :
 
 /-- extracted from the C++ template at T = Sym; 3 path(s) -/
 def C07.Frustum.worldRadiusExc {α : Type} [Mul α] [Div α] [Neg α] [LT α] [DecidableLT α] [OfNat α 0] [OfNat α 1] (tmax : α) (n : α) (f : α) (l : α) (r : α) (t : α) (b : α) (p : V3 α) (radius : α) : Except Exc α :=
-  let t795 := (-n)
-  let t798 := (sabs p.z)
-  let t800 := (sabs t795)
-  let t802 := (radius * (p.z / t795))
-  let t803 := (tmax * t800)
-  if (1 : α) < t800 then
-    .ok (t802)
+  let t867 := (-n)
+  let t870 := (sabs p.z)
+  let t872 := (sabs t867)
+  let t874 := (radius * (p.z / t867))
+  let t875 := (tmax * t872)
+  if (1 : α) < t872 then
+    .ok (t874)
   else
-    if t798 < t803 then
-      .ok (t802)
+    if t870 < t875 then
+      .ok (t874)
     else
       .error Exc.domainError
 
@@ -510,41 +650,41 @@ def C07.Frustum.aspectExc {α : Type} [Sub α] [Mul α] [Div α] [Neg α] [LT α
   let t692 := (sabs t674)
   let t695 := (sabs t676)
   let t696 := (tmax * t695)
-  let t804 := (t674 / t676)
+  let t876 := (t674 / t676)
   if t695 < (1 : α) then
     if t696 < t692 then
       .error Exc.domainError
     else
-      .ok (t804)
+      .ok (t876)
   else
-    .ok (t804)
+    .ok (t876)
 
 /-- extracted from the C++ template at T = Sym; 2 path(s) -/
 def C07.Frustum.setFov {α : Type} [Sub α] [Mul α] [Div α] [Neg α] [DecidableEq α] [OfNat α 0] [OfNat α 2] (tan : α → α) (n : α) (f : α) (fovx : α) (fovy : α) (aspect : α) : (α × α × α × α × α × α × Bool) :=
-  let t812 := (n * (tan (fovy / (2 : α))))
-  let t813 := (-t812)
-  let t816 := (((t812 - t813) * aspect) / (2 : α))
-  let t820 := (n * (tan (fovx / (2 : α))))
-  let t821 := (-t820)
-  let t824 := (((t820 - t821) / aspect) / (2 : α))
+  let t884 := (n * (tan (fovy / (2 : α))))
+  let t885 := (-t884)
+  let t888 := (((t884 - t885) * aspect) / (2 : α))
+  let t892 := (n * (tan (fovx / (2 : α))))
+  let t893 := (-t892)
+  let t896 := (((t892 - t893) / aspect) / (2 : α))
   if fovx = (0 : α) then
-    (n, f, (-t816), t816, t812, t813, false)
+    (n, f, (-t888), t888, t884, t885, false)
   else
-    (n, f, t821, t820, t824, (-t824), false)
+    (n, f, t893, t892, t896, (-t896), false)
 
 /-- extracted from the C++ template at T = Sym; 3 path(s) -/
 def C07.Frustum.setFovExc {α : Type} [Sub α] [Mul α] [Div α] [Neg α] [DecidableEq α] [OfNat α 0] [OfNat α 2] (tan : α → α) (n : α) (f : α) (fovx : α) (fovy : α) (aspect : α) : Except Exc (α × α × α × α × α × α × Bool) :=
-  let t812 := (n * (tan (fovy / (2 : α))))
-  let t813 := (-t812)
-  let t816 := (((t812 - t813) * aspect) / (2 : α))
-  let t820 := (n * (tan (fovx / (2 : α))))
-  let t821 := (-t820)
-  let t824 := (((t820 - t821) / aspect) / (2 : α))
+  let t884 := (n * (tan (fovy / (2 : α))))
+  let t885 := (-t884)
+  let t888 := (((t884 - t885) * aspect) / (2 : α))
+  let t892 := (n * (tan (fovx / (2 : α))))
+  let t893 := (-t892)
+  let t896 := (((t892 - t893) / aspect) / (2 : α))
   if fovx = (0 : α) then
-    .ok ((n, f, (-t816), t816, t812, t813, false))
+    .ok ((n, f, (-t888), t888, t884, t885, false))
   else
     if fovy = (0 : α) then
-      .ok ((n, f, t821, t820, t824, (-t824), false))
+      .ok ((n, f, t893, t892, t896, (-t896), false))
     else
       .error Exc.domainError
 
